@@ -182,6 +182,19 @@ def run(tier, res, replay=None):
     pairs.append(('alone-vs-core-range-line-units',
                   unitsys.case_in_units(rc, u), 3,
                   unitsys.case_in_units(al, u), 0))
+    # low-flow convection approximation: switched on for the assembly that
+    # needs it, not for the ones that follow it in the core
+    A2 = fitted_type(2, OF)
+    lay2 = [(1, 1, 'A'), (2, 1, 'A'), (2, 2, 'A')]
+    Fb = flow_for(A2, 0.06)
+    ca = make_core(rng, {'A': A2}, lay2, [Fb * 0.01, Fb, Fb * 0.9],
+                   gap_model='none', bypass_fraction=0.0, coolant='const',
+                   ncell=2,
+                   setup={'axial_mesh_size': 0.0005, 'conv_approx': True,
+                          'conv_approx_dz_cutoff': 0.005,
+                          'axial_plane': [0.15, 0.3, 0.45]})
+    pairs.append(('alone-vs-core-after-low-flow-convapprox', ca, 1,
+                  alone_case(ca, 1), 0))
     with ProcessPoolExecutor(max_workers=common.NCPU) as ex:
         t_own = list(ex.map(own_and_steps, cores))
         t_pair = list(ex.map(pair_trace, pairs))
